@@ -29,14 +29,24 @@ def main(argv):
         results = {}
         for p in cands:
             t0 = time.time()
-            r = subprocess.run(["./seedtest.sh", os.path.join(d, "patch.diff"), p], cwd=ROOT, capture_output=True, text=True)
+            keep = "/var/tmp/verif-seedmatrix-replays"
+            subprocess.run(["rm", "-rf", keep])
+            r = subprocess.run(["./seedtest.sh", os.path.join(d, "patch.diff"), p], cwd=ROOT, capture_output=True, text=True, env=dict(os.environ, KEEP_REPLAY=keep))
             out = r.stdout + r.stderr
+            obls = []
+            for rp in sorted(glob.glob(os.path.join(keep, "*.json"))):
+                try:
+                    rj = json.load(open(rp))
+                    obls.append("%s [%s]" % (rj.get("obligation"), (rj.get("verdict") or "").split(":")[0]))
+                except Exception:  # noqa
+                    pass
+            subprocess.run(["rm", "-rf", keep])
             m = re.search(r"vs %s: rc=(\d+)" % p, out)
             rc = int(m.group(1)) if m else r.returncode
             summ = re.search(r"^%s quick: .*$" % p, out, re.M)
             viol = len(re.findall(r"^VIOLATION", out, re.M))
             nf = len(re.findall(r"no-failing-input-found", out))
-            results[p] = {"rc": rc, "violations": viol, "without_replayed_input": nf, "summary": summ.group(0) if summ else out[-300:], "wall_s": round(time.time() - t0, 1)}
+            results[p] = {"rc": rc, "violations": viol, "without_replayed_input": nf, "summary": summ.group(0) if summ else out[-300:], "obligations": sorted(set(obls))[:8], "undecided": re.findall(r'undecided: (\{.*?\})', out)[:4], "wall_s": round(time.time() - t0, 1)}
             if rc == 1:
                 break
         caught = [p for p, v in results.items() if v["rc"] == 1]
